@@ -40,6 +40,8 @@ type PathState struct {
 	cellChoice map[cellKey]int // regexp byte-cell chosen for a symbolic byte on this path
 	syncMaps map[*Value][][2]Value // sync.Map contents of this path
 	pools map[*Value][]Value // sync.Pool free lists of this path
+	workBound int // harness-declared bound on the input bytes looked at by regular-expression searches (0 = none)
+	work      int
 	loopBound int // harness-declared bound on the iterations of any one loop activation (0 = none)
 	prefix    []Decision
 	pos       int
@@ -191,7 +193,7 @@ func (ps *PathState) branch(e *Exec, c *Term, site string) bool {
 	return cur
 }
 
-const maxConcretize = 256
+const maxConcretize = 1024 // three decimal digits (an integer printed with %q) fit
 
 // concretize case-splits a 64-bit term into concrete values.
 func (ps *PathState) concretize(e *Exec, t *Term, why string) int64 {
